@@ -1,27 +1,127 @@
 #!/usr/bin/env python3
-"""tools/seedtest.py <seeded-dir> [--tier quick|thorough] [--checks C01,C02|all]
+"""Seeded-change tooling.
 
-Runs our checks against one seeded change (a directory holding patch.diff and meta.json): applies the patch to /repo
-(git apply), confirms that hc still builds and passes its own tests, runs the property's check (or the listed ones),
-and ALWAYS reverts /repo afterwards (git checkout -- . ; removes untracked files the patch added).
-Prints one line per check and writes <seeded-dir>/result.json."""
-import json, os, subprocess, sys, time
+  tools/seedtest.py import <Cxx> <srcdir> [--name NAME]   copy an independently produced change (patch.diff, demo,
+                                                           README.md) into /verif/seeded/<Cxx>-<name>/ and write meta.json
+  tools/seedtest.py confirm <seeded-dir>                   in a scratch worktree of /repo (outside /repo and /verif):
+                                                           demo passes on the clean tree; with the patch hc builds, hc's own
+                                                           tests pass, and the demo FAILS
+  tools/seedtest.py run <seeded-dir> [--tier quick|thorough] [--checks C01,C02|all]
+                                                           run our checks against the patched tree (HC_REPO=<scratch worktree>;
+                                                           /repo itself is never touched) and write result.json
+Every scratch worktree is removed again, with its build output."""
+import json, os, re, shutil, subprocess, sys, time
 
 V = os.path.dirname(os.path.dirname(os.path.abspath(__file__)))
 REPO = "/repo"
 ENV = dict(os.environ, GOFLAGS="-mod=mod", GOPROXY="off", GOSUMDB="off", GOTOOLCHAIN="local")
 
 
-def sh(cmd, cwd=None, timeout=1800):
-    p = subprocess.run(cmd, shell=True, cwd=cwd, env=ENV, stdout=subprocess.PIPE, stderr=subprocess.STDOUT, timeout=timeout)
+def sh(cmd, cwd=None, timeout=2400, env=None):
+    p = subprocess.run(cmd, shell=True, cwd=cwd, env=env or ENV, stdout=subprocess.PIPE, stderr=subprocess.STDOUT, timeout=timeout)
     return p.returncode, p.stdout.decode("utf-8", "replace")
 
 
-def main():
-    d = os.path.abspath(sys.argv[1])
-    tier = "quick"
-    checks = None
-    a = sys.argv[2:]
+class Worktree:
+    def __init__(self, tag):
+        self.path = "/tmp/seedrun-%s-%d" % (tag, os.getpid())
+
+    def __enter__(self):
+        sh("git worktree remove --force %s" % self.path, REPO)
+        rc, out = sh("git worktree add -q --detach %s HEAD" % self.path, REPO)
+        if rc != 0:
+            raise SystemExit("cannot create worktree: " + out)
+        return self.path
+
+    def __exit__(self, *a):
+        sh("git worktree remove --force %s" % self.path, REPO)
+        shutil.rmtree(self.path, ignore_errors=True)
+        sh("git worktree prune", REPO)
+
+
+def cmd_import(args):
+    prop, src = args[0], os.path.abspath(args[1])
+    name = os.path.basename(src.rstrip("/"))
+    if "--name" in args:
+        name = args[args.index("--name") + 1]
+    dst = os.path.join(V, "seeded", "%s-%s" % (prop, name))
+    os.makedirs(dst, exist_ok=True)
+    for f in os.listdir(src):
+        p = os.path.join(src, f)
+        if os.path.isdir(p):
+            shutil.copytree(p, os.path.join(dst, f), dirs_exist_ok=True)
+        else:
+            shutil.copy(p, dst)
+    readme = open(os.path.join(dst, "README.md")).read() if os.path.exists(os.path.join(dst, "README.md")) else ""
+    ticks = re.findall(r"`([^`\n]+)`", readme)
+    dest = next((t for t in ticks if t.endswith("_test.go") and "/" in t and not t.startswith("_seed")), "")
+    run = next((t for t in ticks if t.startswith("go test") and "-run" in t), "")
+    demo = next((f for f in sorted(os.listdir(dst)) if f.endswith("_test.go")), "")
+    title = readme.strip().split("\n")[0].lstrip("# ").strip()
+    needs = ""
+    m = re.search(r"##\s*(?:What is needed to manifest|Needed to manifest|What it needs to manifest|Trigger)[^\n]*\n(.*?)(?=\n## |\Z)", readme, re.S | re.I)
+    if m:
+        needs = " ".join(m.group(1).split())[:900]
+    meta = {"property": prop, "title": title, "origin": "independent sub-agent given only the property text and its own scratch worktree",
+            "needs_to_manifest": needs, "demo_file": demo, "demo_dest": dest, "demo_run": run}
+    json.dump(meta, open(os.path.join(dst, "meta.json"), "w"), indent=1)
+    print(dst, "| dest:", dest, "| run:", run)
+    return dst
+
+
+def confirm(d, wt):
+    meta = json.load(open(os.path.join(d, "meta.json")))
+    out = {}
+    dest = os.path.join(wt, meta["demo_dest"])
+
+    def demo():
+        copied = []
+        if meta.get("demo_dir_dest"):          # several test files that go into one (possibly new) package directory
+            dd = os.path.join(wt, meta["demo_dir_dest"])
+            os.makedirs(dd, exist_ok=True)
+            for f in os.listdir(d):
+                if f.endswith("_test.go"):
+                    shutil.copy(os.path.join(d, f), os.path.join(dd, f))
+                    copied.append(os.path.join(dd, f))
+        else:
+            os.makedirs(os.path.dirname(dest), exist_ok=True)
+            shutil.copy(os.path.join(d, meta["demo_file"]), dest)
+            copied.append(dest)
+        rc, o = sh(meta["demo_run"], wt, timeout=900)
+        for f in copied:
+            os.remove(f)
+        return rc, o
+
+    rc, o = demo()
+    out["demo_on_clean_tree"] = "pass" if rc == 0 else "FAIL: " + o[-400:]
+    rc, o = sh("git apply %s" % os.path.join(d, "patch.diff"), wt)
+    if rc != 0:
+        out["error"] = "patch does not apply: " + o[-300:]
+        return out
+    rc, o = sh("go build ./... && go test -vet=off -count=1 ./... 2>&1 | grep -v 'no test files' | grep -v '^ok' ; true", wt)
+    out["hc_build_and_tests_with_patch"] = "ok" if not o.strip() else o[-600:]
+    rc, o = demo()
+    out["demo_with_patch"] = "fails (as required)" if rc != 0 else "PASSES (change not demonstrated)"
+    out["confirmed"] = (out["demo_on_clean_tree"] == "pass" and out["hc_build_and_tests_with_patch"] == "ok" and rc != 0)
+    return out
+
+
+def cmd_confirm(args):
+    d = os.path.abspath(args[0])
+    with Worktree(os.path.basename(d)) as wt:
+        out = confirm(d, wt)
+    meta = json.load(open(os.path.join(d, "meta.json")))
+    meta["confirmation"] = out
+    meta["what_was_run"] = ["scratch worktree of /repo HEAD", meta.get("demo_run", ""), "go build ./... && go test -vet=off -count=1 ./..."]
+    json.dump(meta, open(os.path.join(d, "meta.json"), "w"), indent=1)
+    print(os.path.basename(d), json.dumps(out))
+    return out
+
+
+def cmd_run(args):
+    d = os.path.abspath(args[0])
+    tier, checks = "quick", None
+    a = args[1:]
     while a:
         if a[0] == "--tier":
             tier = a[1]; a = a[2:]
@@ -37,26 +137,21 @@ def main():
         ids = [c["property_id"] for c in json.load(open(os.path.join(V, "MANIFEST.json")))["checks"]]
     else:
         ids = checks.split(",")
-    rc, out = sh("git status --porcelain", REPO)
-    if out.strip():
-        print("refusing: /repo is not clean:\n" + out)
-        sys.exit(2)
-    res = {"seed": os.path.basename(d), "property": prop, "tier": tier, "checks": {}}
-    try:
-        rc, out = sh("git apply %s" % os.path.join(d, "patch.diff"), REPO)
+    respath = os.path.join(d, "result.json")
+    res = json.load(open(respath)) if os.path.exists(respath) else {}
+    res.update({"seed": os.path.basename(d), "property": prop})
+    res.setdefault("checks", {})
+    with Worktree(os.path.basename(d)) as wt:
+        rc, o = sh("git apply %s" % os.path.join(d, "patch.diff"), wt)
         if rc != 0:
-            print("patch does not apply:\n" + out)
-            res["error"] = "patch does not apply"
-            return res
-        rc, out = sh("go build ./... && go test -vet=off -count=1 ./... 2>&1 | grep -v 'no test files' | grep -v '^ok' ; true", REPO)
-        res["hc_build_and_tests"] = "ok" if not out.strip() else out[-800:]
+            print("patch does not apply:\n" + o)
+            return
+        env = dict(ENV, HC_REPO=wt)
         for cid in ids:
             t = time.time()
-            rc, out = sh("./check %s %s" % (cid, tier), V)
-            lines = [l for l in out.split("\n") if l.startswith(("VIOLATION", "OK ", "KNOWN-FINDING"))]
-            verdict = "MISSED"
-            replay = ""
-            for l in lines:
+            rc, o = sh("./check %s %s" % (cid, tier), V, env=env)
+            verdict, replay = "MISSED", ""
+            for l in o.split("\n"):
                 if l.startswith("VIOLATION"):
                     verdict = "caught-no-input" if l.rstrip().endswith("no-failing-input-found") else "caught"
                     replay = l.split("replay=")[1].split()[0]
@@ -67,14 +162,14 @@ def main():
                     detail = (r.get("signature") or r.get("theorem_or_stream") or "")[:200]
                 except Exception:
                     pass
-            res["checks"][cid] = {"verdict": verdict, "rc": rc, "wall_s": round(time.time() - t, 1), "detail": detail}
-            print("%s on %s: %s (%.0fs) %s" % (cid, res["seed"], verdict, time.time() - t, detail))
-    finally:
-        sh("git checkout -- . && git clean -fdq", REPO)
-    return res
+            res["checks"]["%s/%s" % (cid, tier)] = {"verdict": verdict, "wall_s": round(time.time() - t, 1), "detail": detail}
+            print("%-22s %s/%s: %s (%.0fs) %s" % (res["seed"], cid, tier, verdict, time.time() - t, detail))
+    # leave the generated tables of /verif in the state of /repo
+    sh("./check --regen >/dev/null 2>&1", V)
+    json.dump(res, open(respath, "w"), indent=1)
 
 
 if __name__ == "__main__":
-    r = main()
-    if r:
-        json.dump(r, open(os.path.join(os.path.abspath(sys.argv[1]), "result.json"), "w"), indent=1)
+    if len(sys.argv) < 3:
+        print(__doc__); sys.exit(2)
+    {"import": cmd_import, "confirm": cmd_confirm, "run": cmd_run}[sys.argv[1]](sys.argv[2:])
